@@ -12,8 +12,9 @@ from dataclasses import dataclass, field
 from . import tlc
 
 VERIF = tlc.VERIF
-EVIDENCE = os.path.join(VERIF, "evidence")
-REPLAYS = os.path.join(VERIF, "replays")
+_scratch = "PMV_REPO" in os.environ      # mutant evaluation against a scratch worktree: keep evidence/ untouched
+EVIDENCE = os.path.join(VERIF, ".scratch-evidence" if _scratch else "evidence")
+REPLAYS = os.path.join(VERIF, ".scratch-replays" if _scratch else "replays")
 KNOWN = os.path.join(VERIF, "known_findings.json")
 
 sys.path.insert(0, os.environ.get("PMV_REPO", "/repo"))
